@@ -32,6 +32,7 @@ class Run:
         self.sig = list(doc["sig"])
         self.viol = []
         self.priors = []  # (object under test, reference table)
+        self.prior_sigs = []
         self.models = []  # (CRevisionModel, prior index, {idx: (cond obj, text)})
         self.n_crev = 0
         self.n_none = 0
@@ -56,17 +57,19 @@ class Run:
         from parser.Wrappers import parse_belief_base
 
         kind = p["kind"]
-        nw = 2 ** len(self.sig)
-        ws = [format(i, "0%db" % len(self.sig)) for i in range(nw)]
+        sig = list(p.get("sig") or self.sig)
+        self.prior_sigs.append(sig)
+        nw = 2 ** len(sig)
+        ws = [format(i, "0%db" % len(sig)) for i in range(nw)]
         if kind == "zero":
             ranks = {w: 0 for w in ws}
-            return PreOCF.init_custom(dict(ranks), None, list(self.sig)), ranks
+            return PreOCF.init_custom(dict(ranks), None, list(sig)), ranks
         if kind == "custom":
             ranks = {w: int(p["ranks"][w]) for w in ws}
-            return PreOCF.init_custom(dict(ranks), None, list(self.sig)), ranks
+            return PreOCF.init_custom(dict(ranks), None, list(sig)), ranks
         bb = parse_belief_base(p["base"])
-        if list(bb.signature) != self.sig:
-            raise seams.HarnessError("prior base signature differs from the scenario signature")
+        if list(bb.signature) != sig:
+            raise seams.HarnessError("prior base signature differs from the prior's signature")
         if kind == "system-z":
             o = PreOCF.init_system_z(bb, extended=p.get("extended"))
             twin = PreOCF.init_system_z(parse_belief_base(p["base"]), extended=p.get("extended"))
@@ -78,14 +81,14 @@ class Run:
                 # construction of the c-representation object is C17's subject: use the all-zero prior
                 self.S.probe("crep_prior_unavailable")
                 ranks = {w: 0 for w in ws}
-                return PreOCF.init_custom(dict(ranks), None, list(self.sig)), ranks
+                return PreOCF.init_custom(dict(ranks), None, list(sig)), ranks
             twin = RandomMinCRepPreOCF.init_with_impacts_list(parse_belief_base(p["base"]), o.save_impacts())
             return o, dict(twin.compute_all_ranks())
         raise seams.HarnessError("unknown prior kind %r" % kind)
 
     def ref_for(self, mi):
         model, pi, conds = self.models[mi]
-        ref = RefRev(self.sig, self.priors[pi][1])
+        ref = RefRev(self.prior_sigs[pi], self.priors[pi][1])
         ref.set_conds({idx: self._ast(c) for idx, (c, _) in conds.items()})
         return ref
 
@@ -110,6 +113,27 @@ class Run:
         shapes = tuple(sorted(t for _, t in conds.values()))
         self.state_keys.add("%s|%d" % (hashlib.sha256(repr(shapes).encode()).hexdigest()[:8], len(conds)))
 
+    def check_csp_equivalence(self, i, mi, gpz, fp, fm):
+        """The constraint system emitted by the incremental model must be equivalent to the one
+        built from a fresh compilation of its current conditionals (both through the repository's
+        own translate_to_csp, so a defect of the encoding itself is present on both sides)."""
+        import z3
+        from inference.c_revision import _convert_csp_to_z3, compile_alt_fast, translate_to_csp
+
+        model, pi, conds = self.models[mi]
+        prior = self.priors[pi][0]
+        lst = [c for c, _ in conds.values()]
+        a = model.to_csp(gamma_plus_zero=gpz, fixed_gamma_plus=dict(fp) or None, fixed_gamma_minus=dict(fm) or None)
+        b = translate_to_csp(compile_alt_fast(prior, lst), gpz, fixed_gamma_plus=dict(fp) or None, fixed_gamma_minus=dict(fm) or None)
+        za, zb = _convert_csp_to_z3(list(a)), _convert_csp_to_z3(list(b))
+        fa = z3.And(za) if za else z3.BoolVal(True)
+        fb = z3.And(zb) if zb else z3.BoolVal(True)
+        sol = z3.Solver()
+        sol.add(fa != fb)
+        self.S.probe("csp_equivalence_checks")
+        if seams.REAL["solver_check"](sol) != z3.unsat:
+            self.v("incremental_csp_differs_from_fresh", i, model=mi, gpz=gpz, fixed_minus=fm, fixed_plus=fp, conds=[t for _, t in conds.values()])
+
     def do_crev(self, i, op):
         import z3
         from inference.c_revision import c_revision
@@ -126,6 +150,8 @@ class Run:
         kw = {}
         if op.get("use_model"):
             kw["model"] = model
+        if op.get("use_model"):
+            self.check_csp_equivalence(i, mi, gpz, fp, fm)
         res = c_revision(prior, lst, gamma_plus_zero=gpz, fixed_gamma_minus=dict(fm) or None, fixed_gamma_plus=dict(fp) or None, **kw)
         self.n_crev += 1
         self.S.trace("crev", i, json.dumps(res, sort_keys=True) if res is not None else None)
@@ -288,6 +314,18 @@ def job_trace(doc):
 # ======================================================================================
 # parent side
 # ======================================================================================
+def _rename(f, ren):
+    if f[0] == "var":
+        return ("var", ren.get(f[1], f[1]))
+    return (f[0],) + tuple(_rename(x, ren) if isinstance(x, tuple) else x for x in f[1:])
+
+
+def _atoms_of_text(t):
+    import re
+
+    return [x for x in re.findall(r"[A-Za-z][A-Za-z0-9_]*", t) if x not in ("Top", "Bottom")]
+
+
 def _gen_cond(g, sig):
     from sim.gen import workload as W
 
@@ -301,8 +339,11 @@ def _gen_cond(g, sig):
         c = (a, a)  # unfalsifiable
     elif r < 0.93:
         c = (("top",), W.gen_literal(g, sig))  # unfalsifiable
-    elif r < 0.96:
+    elif r < 0.95:
         c = (("bot",), W.gen_literal(g, sig))  # cannot be accepted
+    elif r < 0.97:
+        a = W.gen_literal(g, sig)
+        c = (("not", a), a) if g.random() < 0.5 else (("and", a, ("not", a)), W.gen_literal(g, sig))  # unverifiable
     else:
         c = W.gen_conditional(g, sig, "compound")
     return W.cond_text(c)
@@ -320,29 +361,46 @@ def generate(prop, verif_seed, idx, tier="quick", cls=None):
     if cls is None:
         cls = g.choices(["incremental", "revision", "mixed", "two_priors"], weights=[30, 30, 25, 15])[0]
     priors = []
-    for _ in range(2 if cls == "two_priors" else 1):
+    psigs = []
+    for pn in range(2 if cls == "two_priors" else 1):
         k = g.choices(["custom", "zero", "system-z", "crep"], weights=[45, 20, 25, 10])[0]
+        psig = list(sig)
+        if pn == 1 and g.random() < 0.6 and n_atoms >= 2:
+            # the second prior lists the same atoms in another order (or fewer of them)
+            g.shuffle(psig)
+            if n_atoms >= 3 and g.random() < 0.3:
+                psig = psig[:-1]
+        psigs.append(psig)
+        pw = 2 ** len(psig)
         if k == "custom":
             mx = g.choice([1, 2, 4, 9])
-            priors.append({"kind": "custom", "ranks": {format(i, "0%db" % n_atoms): g.randrange(0, mx + 1) for i in range(nw)}})
+            p = {"kind": "custom", "ranks": {format(i, "0%db" % len(psig)): g.randrange(0, mx + 1) for i in range(pw)}}
         elif k == "zero":
-            priors.append({"kind": "zero"})
+            p = {"kind": "zero"}
         else:
-            s2, conds = W.gen_base(g, want="consistent", max_conds=4, style=g.choice(["literal", "mixed"]), exact_atoms=n_atoms)
-            if s2 is None or len(s2) != n_atoms:
-                priors.append({"kind": "zero"})
-            else:
-                p = {"kind": k, "base": W.base_text(sig, conds)}
-                if k == "system-z":
-                    p["extended"] = g.choice([None, None, True])
-                priors.append(p)
+            s2, conds = W.gen_base(g, want="consistent", max_conds=4, style=g.choice(["literal", "mixed"]), exact_atoms=len(psig))
+            # gen_base uses the first atoms of the alphabet: rename them onto this prior's signature
+            ren = dict(zip(s2, psig))
+            conds = [(_rename(b, ren), _rename(a, ren)) for b, a in conds]
+            p = {"kind": k, "base": W.base_text(psig, conds)}
+            if k == "system-z":
+                p["extended"] = g.choice([None, None, True])
+        if psig != list(sig):
+            p["sig"] = psig
+        priors.append(p)
     ops = []
     live = {}  # model index -> set of live idx
     ever = {}
     n_models = g.choice([1, 1, 2]) if cls != "two_priors" else 2
     for m in range(n_models):
         n0 = g.randint(0, 3 if n_atoms >= 4 else 4)
-        conds = [[j + 1, _gen_cond(g, sig)] for j in range(n0)]
+        msig = psigs[m % len(priors)]
+        conds = [[j + 1, _gen_cond(g, msig)] for j in range(n0)]
+        if m == 1 and conds and ops and ops[0]["conds"] and g.random() < 0.5:
+            # the same conditional text compiled over both priors
+            txt = ops[0]["conds"][0][1]
+            if all(tok in msig for tok in _atoms_of_text(txt)):
+                conds[0][1] = txt
         ops.append({"op": "new_model", "prior": m % len(priors), "conds": conds})
         live[m] = {j + 1 for j in range(n0)}
         ever[m] = set(live[m])
@@ -363,13 +421,14 @@ def generate(prop, verif_seed, idx, tier="quick", cls=None):
                     idx = g.choice(dead)  # re-use a removed index with a different conditional
                 else:
                     idx = max(ever[m], default=0) + 1
-                ops.append({"op": "add", "model": m, "idx": idx, "cond": _gen_cond(g, sig)})
+                ops.append({"op": "add", "model": m, "idx": idx, "cond": _gen_cond(g, psigs[m % len(priors)])})
                 live[m].add(idx)
                 ever[m].add(idx)
             else:
                 ops.append({"op": "compile_check", "model": m})
         elif r < w_inc + 0.08:
-            ops.append({"op": "rank_prior", "prior": g.randrange(len(priors)), "w": format(g.randrange(nw), "0%db" % n_atoms)})
+            pr = g.randrange(len(priors))
+            ops.append({"op": "rank_prior", "prior": pr, "w": format(g.randrange(2 ** len(psigs[pr])), "0%db" % len(psigs[pr]))})
         elif r < w_inc + 0.14:
             ops.append({"op": "compile_check", "model": m})
         else:
@@ -408,7 +467,7 @@ SPECS = {
             "infeasible, and with gamma+ = 0 no feasible vector dominates the returned gamma-. Distinct = distinct canonical JSON; non-trivial = a model exists and at least one add/remove or c_revision ran."
         ),
         "state_measure": "distinct (multiset of current conditional texts, number of conditionals) per model after each step",
-        "must_reach": ["crev_calls", "crev_none", "pareto_checks", "add_remove_steps"],
+        "must_reach": ["crev_calls", "crev_none", "pareto_checks", "add_remove_steps", "csp_equivalence_checks"],
         "reach_in_quick": True,
         "components": {
             "real": ["inference/c_revision.py, c_revision_model.py, c_inference.py (minima encoding), preocf.py, parser/* (current working tree of /repo)", "z3 Optimize (Pareto), pysmt: called for real"],
